@@ -3,6 +3,7 @@ import Pyunicorn.Lemmas.MpiProto
 import Pyunicorn.Lemmas.MpiChunk
 import Pyunicorn.Lemmas.MpiTerm
 import Pyunicorn.Lemmas.MpiErr
+import Pyunicorn.Lemmas.MpiPool
 import Pyunicorn.Model.MpiKernels
 import Pyunicorn.Generated.ArithC19
 import Pyunicorn.Generated.StructC19
@@ -1324,3 +1325,77 @@ theorem arenas_fair_run_eq_serial [Inhabited ρ]
   exact ⟨hf, h.1, h.2 hf⟩
 
 end Pyunicorn.MpiChunk
+
+/-! ## Round 5 — the multiprocessing kernel `_nsi_betweenness`: state across `for j in targets`
+
+`pool_sum_eq_serial` (round 3) assumed that the kernel behind `pool.map(worker, batches)` is a
+sum of per-target contributions.  The Cython kernel allocates its work arrays once, before the
+loop over the targets, and mutates them inside; it is such a sum only because every iteration
+re-initialises each of them before use.  `translate/gen_C19.py` regenerates the classification
+of every array local from `numerics.pyx`; the model `Pyunicorn.MpiPool` is the loop with an
+arbitrary iteration body over these arrays. -/
+namespace Pyunicorn.MpiPool
+open Pyunicorn.Mpi Pyunicorn.MpiProto Pyunicorn.Generated
+
+/-- **the kernel of the current source carries nothing from target to target**: every array
+local of `_nsi_betweenness` is left alone by the target loop, re-initialised at the top of
+every iteration before its first use, or the accumulator (exactly one, allocated as zeros,
+only `+=`-updated at the top level of the loop, and returned); no parameter is written; no
+scalar local is read in an iteration before being assigned in it; the loop runs over the last
+parameter, which is the one `pool.map` / the serial call supply (`partial` binds all others). -/
+theorem pool_kernel_tables_ok : poolKernelOk = true := by decide
+
+/-- **a kernel that carries nothing is a sum of per-target contributions** — for every
+iteration body, every classification without a `carried` array, every initial contents of the
+arrays: the result is the sum over the targets of what the body yields from the *same* entry
+state, whatever the earlier iterations left behind. -/
+theorem pool_kernel_eq_sum (cls : Nat → Cls) (hcls : ∀ a, cls a ≠ .carried) (fresh : Work)
+    (iter : Work → Nat → Work × List Int) (N : Nat) (s0 : Work) (targets : List Nat) :
+    poolKernel cls fresh iter N s0 targets =
+      sumVecs N (targets.map fun j => (iter (entry cls fresh s0) j).2) :=
+  poolKernel_eq_sum cls hcls fresh iter N s0 targets
+
+/-- **pool result = serial result for a stateful kernel** (exact arithmetic): for every
+iteration body, every number of workers `n ≥ 1` (`np.array_split` batches, empty ones
+included), every `targets` (unsorted, repeated): adding up the per-batch results of worker
+processes that each start from freshly allocated arrays gives the single call
+`worker(targets)`. -/
+theorem pool_run_eq_serial (cls : Nat → Cls) (hcls : ∀ a, cls a ≠ .carried) (fresh : Work)
+    (iter : Work → Nat → Work × List Int) (N : Nat) (s0 : Work) (targets : List Nat) (n : Nat)
+    (hn : 1 ≤ n) (hlen : ∀ s j, (iter s j).2.length = N) :
+    poolRun cls fresh iter N s0 targets n = poolKernel cls fresh iter N s0 targets := by
+  unfold poolRun
+  have hk : poolKernel cls fresh iter N s0 =
+      fun b => sumVecs N (b.map fun j => (iter (entry cls fresh s0) j).2) := by
+    funext b
+    exact poolKernel_eq_sum cls hcls fresh iter N s0 b
+  rw [hk]
+  have := sumVecs_flatten N (fun j => (iter (entry cls fresh s0) j).2) (fun j => hlen _ j)
+    (arraySplit targets n)
+  unfold sumVecs at this ⊢
+  rw [this, (pool_batches_partition targets n hn).1]
+
+/-- **n.s.i. shortest-path betweenness: pool = serial**, for the kernel of the current source
+(classification regenerated, nothing assumed about the iteration body but the length of the
+vector it adds). -/
+theorem nsi_betweenness_pool_eq_serial (fresh : Work) (iter : Work → Nat → Work × List Int)
+    (N : Nat) (s0 : Work) (targets : List Nat) (n : Nat) (hn : 1 ≤ n)
+    (hlen : ∀ s j, (iter s j).2.length = N) :
+    poolRun poolCls fresh iter N s0 targets n = poolKernel poolCls fresh iter N s0 targets := by
+  have hall : StructC19.pool_kernel_arrays.all (fun x => clsOfString x.2 != .carried) = true := by
+    decide
+  exact pool_run_eq_serial poolCls (clsOf_ne_carried _ hall) fresh iter N s0 targets n hn hlen
+
+/-- sharpness: one array that is neither re-initialised nor left alone (here: array 0 counts
+the iterations) and the batches no longer add up to the serial call — what a dropped
+`X.fill(..)` at the top of the target loop does. -/
+example :
+    let cls : Nat → Cls := fun _ => .carried
+    let iter : Work → Nat → Work × List Int := fun s j => (fun _ => [1], [(s 0).sum + j])
+    poolRun cls (fun _ => []) iter 1 (fun _ => [0]) [5, 6] 2 = [11] ∧
+    poolKernel cls (fun _ => []) iter 1 (fun _ => [0]) [5, 6] = [12] ∧
+    poolRun (fun _ => .reset) (fun _ => [0]) iter 1 (fun _ => [0]) [5, 6] 2 = [11] ∧
+    poolKernel (fun _ => .reset) (fun _ => [0]) iter 1 (fun _ => [0]) [5, 6] = [11] := by
+  decide
+
+end Pyunicorn.MpiPool
